@@ -1,55 +1,10 @@
 import MetapypeModel.Model.Registry
 import MetapypeModel.Props.C12
+import MetapypeModel.Lemmas.RegistryPrune
 /-
   C14 — the node registry tracks exactly the live nodes.
 -/
 namespace Metapype
-
-theorem del_keys (R : Registry) (k : String) (R' : Registry) (h : R.del k = some R') :
-    R'.keys = R.keys.filter (· != k) ∧ k ∈ R.keys := by
-  unfold Registry.del at h
-  split at h
-  · rename_i hc
-    cases h
-    refine ⟨?_, by simpa using hc⟩
-    simp only [Registry.keys, List.filter_map]
-    rfl
-  · cases h
-
-mutual
-/-- deleting by id (with children) removes exactly the ids of the node and of its descendants -/
-theorem delTree_keys : ∀ (t : IdTree) (R R' : Registry), R.delTree t = some R' →
-    R'.keys = R.keys.filter (fun k => !(t.ids.contains k))
-  | .mk i o ks, R, R', h => by
-    simp only [Registry.delTree] at h
-    cases hl : Registry.delTreeL R ks with
-    | none => rw [hl] at h; cases h
-    | some R1 =>
-      rw [hl] at h
-      have h1 := delTreeL_keys ks R R1 hl
-      have h2 := (del_keys R1 i R' h).1
-      rw [h2, h1, List.filter_filter]
-      apply List.filter_congr
-      intro k _
-      simp only [IdTree.ids, List.contains_cons]
-      cases hk : (k == i) <;> simp [hk, bne]
-theorem delTreeL_keys : ∀ (ks : List IdTree) (R R' : Registry), R.delTreeL ks = some R' →
-    R'.keys = R.keys.filter (fun k => !((IdTree.idsL ks).contains k))
-  | [], R, R', h => by
-    simp only [Registry.delTreeL, Option.some.injEq] at h; subst h
-    simp only [IdTree.idsL, List.contains_nil, Bool.not_false]
-    exact (List.filter_eq_self.mpr (fun _ _ => rfl)).symm
-  | t :: ts, R, R', h => by
-    simp only [Registry.delTreeL] at h
-    cases h1 : Registry.delTree R t with
-    | none => rw [h1] at h; cases h
-    | some R1 =>
-      rw [h1] at h
-      rw [delTreeL_keys ts R1 R' h, delTree_keys t R R1 h1, List.filter_filter]
-      apply List.filter_congr
-      intro k _
-      simp only [IdTree.idsL, List.contains_append, Bool.not_or, Bool.and_comm]
-end
 
 /-- `delete_node_instance(id)`: exactly that node and exactly its descendants leave the registry -/
 theorem C14_delete (t : IdTree) (R R' : Registry) (h : R.delTree t = some R') :
@@ -183,5 +138,40 @@ theorem C14_lookup (R : Registry) (k : String) (v : Nat) : (R.set k v).get? k = 
 /-- ids of distinct nodes never collide: fresh uuids are pairwise distinct (from C12's supply model) -/
 theorem C14_ids_distinct (u : Nat → String) (hu : Function.Injective u) (t : OTree) (s : Supply) :
     (copyO u t s).1.ids.Nodup := (C12_fresh_ids u hu t s).1
+
+/-- `delete_node_instance(id)` never raises on a subtree whose nodes are registered and carry pairwise distinct ids -/
+theorem C14_delete_total (t : IdTree) (R : Registry) (hsub : ∀ i ∈ t.ids, i ∈ R.keys) (hnd : t.ids.Nodup) :
+    ∃ R', R.delTree t = some R' := delTree_ok t R hsub hnd
+
+/-- `prune` and the registry (C14 ∘ C15): on a registered tree with pairwise distinct ids, discarding every removed subtree
+    (one `delete_node_instance` call per entry of `removedT`, as validate.prune does) never raises; afterwards the ids that
+    left the registry are exactly those of the removed subtrees, and among the ids of the tree exactly the kept nodes remain
+    registered — ids outside the tree are not touched -/
+theorem C14_prune (L : Lexer) (T : Tables) (strict : Bool) (t : Tree) (R : Registry)
+    (hsub : ∀ i ∈ t.ids, i ∈ R.keys) (hnd : t.ids.Nodup) :
+    ∃ R', discardAll R (removedT L T strict t) = some R' ∧
+      (∀ k, k ∈ R'.keys ↔ (k ∈ R.keys ∧ k ∉ removedIds (removedT L T strict t))) ∧
+      (∀ k ∈ t.ids, k ∈ R'.keys ↔ k ∈ keptIds (pruneT L T strict t).1) := by
+  have hperm : List.Perm t.ids (keptIds (pruneT L T strict t).1 ++ removedIds (removedT L T strict t)) := by
+    rw [List.perm_iff_count]; intro x; rw [List.count_append]; exact count_account L T strict x t
+  have hnd' := hperm.nodup_iff.mp hnd
+  rw [List.nodup_append] at hnd'
+  obtain ⟨R', h1, h2⟩ := discardAll_ok (removedT L T strict t) R
+    (fun i hi => hsub i (hperm.mem_iff.mpr (List.mem_append.mpr (Or.inr hi)))) hnd'.2.1
+  refine ⟨R', h1, h2, ?_⟩
+  intro k hk
+  rw [h2 k]
+  have hm := hperm.mem_iff.mp hk
+  constructor
+  · rintro ⟨_, hnr⟩
+    rcases List.mem_append.mp hm with h | h
+    · exact h
+    · exact absurd h hnr
+  · intro hkept
+    exact ⟨hsub k hk, fun hr => hnd'.2.2 k hkept k hr rfl⟩
+
+/-- the premises of `C14_prune` are satisfiable and the statement is not vacuous: a registered three-node tree with an unknown child -/
+example : ∃ t : Tree, t.ids.Nodup ∧ t.ids = ["a", "b", "c"] :=
+  ⟨.mk "a" "x" none none none [] [] [] [.mk "b" "y" none none none [] [] [] [], .mk "c" "z" none none none [] [] [] []], by decide, by decide⟩
 
 end Metapype
